@@ -835,7 +835,7 @@ def worker_stream(pid, ctx):
     return s
 
 def worker_plan(pid, theorems, rule_extra):
-    return dict(modules=["Wx.Glob.Throttle"], theorems=theorems, bins=[("lib", ["wxthrottle"])], streams=lambda ctx: [worker_stream(pid, ctx)],
+    return dict(modules=["Wx.Glob.Throttle", "Wx.Glob.ThrottleRun"], theorems=theorems, bins=[("lib", ["wxthrottle"])], streams=lambda ctx: [worker_stream(pid, ctx)],
                 sources=["crates/lib/src/action/worker.rs", "crates/lib/src/watchexec.rs", "crates/lib/src/filter.rs", "crates/events/src/event.rs"],
                 rule="a case is one arrival script (throttle, handler time, events with time / priority / emptiness / filter verdict); non-trivial = at least two batches; distinct by (script, observation). " + rule_extra,
                 assumptions=["async-priority-channel is a bounded priority heap (order within one priority unspecified) — external, modelled as the turn input",
@@ -843,9 +843,9 @@ def worker_plan(pid, theorems, rule_extra):
                              "delivery of filesystem events by inotify/poll and of signals by the OS is not modelled"],
                 partial="the real-time stream cannot place arrivals exactly on window edges; the theorems cover every clock reading, the stream validates the model away from the edges")
 
-PLANS["C01"] = worker_plan("C01", ["Sp.Th.collect_conserve", "Sp.Th.turn_batch", "Sp.Th.turn_next_set", "Sp.Th.turn_filtered", "Sp.Th.classify_spec", "Sp.Th.accepted_iff"],
+PLANS["C01"] = worker_plan("C01", ["Sp.Th.worker_conserve", "Sp.Th.worker_nonempty", "Sp.Th.worker_only_accepted", "Sp.Th.turn_rejected", "Sp.Th.collect_conserve", "Sp.Th.turn_batch", "Sp.Th.turn_next_set", "Sp.Th.turn_filtered", "Sp.Th.classify_spec", "Sp.Th.accepted_iff"],
                            "Oracle: every accepted event in exactly one batch, no rejected or erroring event in any, no empty batch, one runtime error per erroring event.")
-PLANS["C02"] = worker_plan("C02", ["Sp.Th.turn_lower_bound", "Sp.Th.turn_batch", "Sp.Th.turn_filtered", "Sp.Th.collect_conserve", "Sp.Th.classify_spec"],
+PLANS["C02"] = worker_plan("C02", ["Sp.Th.worker_bound", "Sp.Th.collect_bound", "Sp.Th.turn_urgent", "Sp.Th.turn_window_over", "Sp.Th.turn_rejected", "Sp.Th.worker_conserve", "Sp.Th.turn_lower_bound", "Sp.Th.turn_batch", "Sp.Th.turn_filtered", "Sp.Th.collect_conserve", "Sp.Th.classify_spec"],
                            "Oracle: a batch without urgent events reaches the handler no earlier than throttle after its first event was sent (strict, microseconds); urgent and empty events never reach the filter.")
 
 # ------------------------------------------------------------------------------------------------
@@ -1248,3 +1248,18 @@ PLANS["C05"] = dict(
                  "clap parsing and the normalise() functions run for real (hook H1)"],
     partial="the start-up event is outside the model; the all-interleavings freshness theorem is about the abstract queue protocol, not about the composed model",
 )
+
+# ------------------------------------------------------------------------------------------------
+# the property-facing layer: lean/Wx/Props/<ID>.lean states each property's clauses in one place; every theorem in it is an obligation
+
+def _props_layer():
+    for pid, plan in PLANS.items():
+        f = core.LEAN / "Wx" / "Props" / f"{pid}.lean"
+        if not f.exists(): continue
+        names = re.findall(r"^theorem\s+([\w']+)", f.read_text(), re.M)
+        mod = f"Wx.Props.{pid}"
+        if mod not in plan["modules"]: plan["modules"] = [mod] + plan["modules"]
+        plan["theorems"] = [f"Props.{pid}.{n}" for n in names] + [t for t in plan["theorems"]]
+
+_props_layer()
+PLANS["C19"]["modules"].append("Wx.Pure.SignalsCase"); PLANS["C19"]["theorems"] += ["Wp.parse_case_insensitive", "Wp.parse_toUpper"]
